@@ -69,6 +69,8 @@ type submitOp struct {
 	Body     []byte       `json:"http_body,omitempty"`
 	Facts    *submitFacts `json:"facts,omitempty"`
 	Why      string       `json:"why,omitempty"` // what the generator intended with this request
+	// FaultIssuer: the first issuer upload this request triggers fails in the backend (not applied)
+	FaultIssuer bool `json:"fault_issuer,omitempty"`
 }
 
 type submitCertRec struct {
@@ -492,7 +494,19 @@ func (r *submitRunner) expect(op *submitOp) (accept bool, precert bool, chain []
 func (r *submitRunner) sub(i int, op *submitOp) error {
 	g, c, f := r.g, r.c, op.Facts
 	before := r.treeSize()
+	if op.FaultIssuer {
+		r.log.store.mu.Lock()
+		r.log.store.failIssuer = 1
+		r.log.store.mu.Unlock()
+	}
 	resp := r.do(op.Method, "/ct/v1/"+op.Endpoint, op.Body)
+	faulted := false
+	if op.FaultIssuer {
+		r.log.store.mu.Lock()
+		faulted = r.log.store.failIssuer == 0
+		r.log.store.failIssuer = 0
+		r.log.store.mu.Unlock()
+	}
 	if resp.err != nil {
 		return fmt.Errorf("%s %s: %v", op.Endpoint, op.Name, resp.err)
 	}
@@ -557,10 +571,26 @@ func (r *submitRunner) sub(i int, op *submitOp) error {
 	if anchor == "" {
 		anchor = "-"
 	}
-	r.line("sub %s ep=%s m=%s body=%s chain=%s parses=%d na=%d eku=%d linked=%d anchor=%s anchorsub=%d poison=%s defang=%d tbs=%s,%s => %d grew=%d %s iss=%s",
+	faultTok := ""
+	if faulted {
+		faultTok = " issuerfault=1"
+	}
+	r.line("sub %s ep=%s m=%s body=%s chain=%s parses=%d na=%d eku=%d linked=%d anchor=%s anchorsub=%d poison=%s defang=%d tbs=%s,%s%s => %d grew=%d %s iss=%s",
 		op.Name, op.Endpoint, op.Method, f.Body, submitIDs(f.Chain), submitB(f.Parses), f.NotAfterNs, submitB(f.ServerAuth),
-		submitB(f.Linked), anchor, submitB(f.AnchorSubmitted), f.Poison, submitB(f.DefangOK), tbsPlain, tbsRe,
+		submitB(f.Linked), anchor, submitB(f.AnchorSubmitted), f.Poison, submitB(f.DefangOK), tbsPlain, tbsRe, faultTok,
 		resp.status, grew, stored, submitIDs(issFPs))
+	if faulted {
+		// a storage fault while uploading an issuer: the submission must fail with a server error and leave no leaf;
+		// the client retries (the generator appends the same request without the fault)
+		g.count("sub/issuer-upload-fault")
+		if resp.status != 500 || grew != 0 {
+			g.fail(c, i, "submit-accepted-despite-issuer-upload-failure", fmt.Sprintf("%s: the upload of an issuer failed but the request was answered %d and the tree grew by %d", op.Name, resp.status, grew))
+			for k := before; k < after; k++ {
+				r.accounted[k] = "faulted:" + op.Name
+			}
+		}
+		return nil
+	}
 
 	// ---- statistics
 	g.count("sub/endpoint-" + op.Endpoint)
@@ -1126,6 +1156,13 @@ func (g *submitEngine) genCase(r *Rand, name string, nops int, wide bool) *submi
 			f.Body = "toolarge"
 		}
 		op := submitOp{Op: "sub", Name: id, Endpoint: endpoint, Method: method, Body: body, Facts: f, Why: why}
+		if (why == "plain" || why == "eku-server+client") && r.Chance(12) {
+			// the same request first hits a storage fault on its first issuer upload (if it brings a new issuer), then is retried
+			fop := op
+			fop.Name = id + "f"
+			fop.FaultIssuer = true
+			c.Ops = append(c.Ops, fop)
+		}
 		c.Ops = append(c.Ops, op)
 		if why == "plain" || why == "eku-server+client" {
 			accepted = append(accepted, op)
